@@ -336,19 +336,19 @@ func vfGenC02Test(t *rapid.T) vfC02Test {
 	return tc
 }
 
-// vfC02Excluded names the input classes of the two recorded findings of C02
-// (known_findings.json); they are excluded by construction and counted, and
-// TestVerifC02Known still executes their minimal inputs on every run.
+// vfC02Excluded names the input class of the recorded finding of C02
+// (known_findings.json); it is excluded by construction and counted, and
+// TestVerifC02Known still executes its minimal input on every run. (A second
+// class - full-duplex streams with fewer responses than requests and no error -
+// was recorded too until its cause was found and repaired, fix 9e063c6; such
+// cases are generated like any other now, and TestVerifC02Known runs three of
+// them, which must pass.)
 func vfC02Excluded(tc vfC02Test) string {
 	if tc.Stream != 5 || tc.NumReq == 0 {
 		return ""
 	}
 	if !tc.HasDef {
 		tc.RespData, tc.Err = nil, nil // without a response definition there is nothing to send
-	}
-	if tc.Err == nil && tc.NumReq > len(tc.RespData) {
-		// KF2: the server returns while the client's request stream is still open
-		return "known:fullduplex-fewer-responses-no-error"
 	}
 	if tc.Err != nil && tc.NumReq >= 2 && len(tc.RespData) == 0 {
 		// KF1: expectation echoes all requests, the servers raise the error after the first
@@ -392,19 +392,18 @@ func TestVerifC02Known(t *testing.T) {
 	cases := []known{
 		{key: "known:fullduplex-error-no-responses-many-requests", c: vfC02Case{Tests: []vfC02Test{kf1}, Compression: "COMPRESSION_IDENTITY", H2: true},
 			same: func(msg string) bool { return strings.Contains(msg, "request messages to be described") || strings.Contains(msg, "does not match expected error detail") || strings.Contains(msg, "request #") }},
-		{key: "known:fullduplex-fewer-responses-no-error", c: vfC02Case{Tests: []vfC02Test{kf2}, Compression: "COMPRESSION_IDENTITY", H2: true},
-			same: func(msg string) bool {
-				// only Connect permutations fail, with the transport-level EOF
-				for _, m := range regexp.MustCompile(`FAILED: ([^\n]*)`).FindAllStringSubmatch(msg, -1) {
-					if !strings.Contains(m[1], "PROTOCOL_CONNECT") {
-						return false
-					}
-				}
-				return strings.Contains(msg, "unexpected EOF")
-			}},
 	}
-	for _, variant := range []vfC02Test{kf2b, kf2c} {
-		cases = append(cases, known{key: cases[1].key, c: vfC02Case{Tests: []vfC02Test{variant}, Compression: "COMPRESSION_IDENTITY", H2: true}, same: cases[1].same})
+	// formerly recorded (fixed by 9e063c6): the server ends the call before the client has sent everything; also with
+	// response trailers, which the client used to report twice
+	kf2d := kf2b
+	kf2d.RespTrailer = []vfC02Hdr{{Name: "x-custom-trailer", Value: []string{"bing"}}}
+	for _, tc := range []vfC02Test{kf2, kf2b, kf2c, kf2d} {
+		c := vfC02Case{Tests: []vfC02Test{tc}, Compression: "COMPRESSION_IDENTITY", H2: true}
+		err := verifkit.SafeCall(func() error { return vfC02Check(c) })
+		en.Rec.Observe(c, []string{"full-duplex-fewer-responses-than-requests"}, true)
+		if err != nil {
+			en.Fail(c, err)
+		}
 	}
 	for _, k := range cases {
 		err := verifkit.SafeCall(func() error { return vfC02Check(k.c) })
